@@ -124,7 +124,7 @@ FLOORS = {
         "eval:aliasing_twin.expanding_window": 33, "aliasing:columns_0_1": 7, "aliasing:columns_1_0_northing_stored_first": 13,
         "aliasing:columns_of_a_wider_table": 6, "aliasing:fortran_ordered_table": 6,
         "aliasing:fortran_ordered_table_northing_first": 6, "aliasing:last_axis_of_a_3d_table": 28, "aliasing:reversed_rows": 7,
-        "aliasing:unpacked_transpose_northing_first": 7,
+        "aliasing:unpacked_transpose_northing_first": 7, "defaulted_argument:rolling_window.adjust": 349,
     },
     "thorough": {
         "eval:rolling_window.centres": 13800, "eval:rolling_window.index_form": 13800, "eval:rolling_window.membership": 13800,
@@ -179,7 +179,7 @@ FLOORS = {
         "aliasing:columns_1_0_northing_stored_first": 260, "aliasing:columns_of_a_wider_table": 120,
         "aliasing:fortran_ordered_table": 120, "aliasing:fortran_ordered_table_northing_first": 120,
         "aliasing:last_axis_of_a_3d_table": 560, "aliasing:reversed_rows": 140,
-        "aliasing:unpacked_transpose_northing_first": 140,
+        "aliasing:unpacked_transpose_northing_first": 140, "defaulted_argument:rolling_window.adjust": 6980,
     },
 }
 JOBS = {"quick": 1, "thorough": 8}
@@ -804,8 +804,10 @@ def install(tap, run):
         if x.size >= 100_000:
             run.count("expanding:class:at_least_100000_points")
 
-    tap.function(vc, "rolling_window", post=post_rolling, pre=pre_rolling)
-    tap.function(vc, "expanding_window", post=post_expanding, pre=pre_expanding)
+    # defaults as documented in the docstrings: an argument the caller leaves out is judged by these, not by the tree's signature
+    tap.function(vc, "rolling_window", post=post_rolling, pre=pre_rolling,
+                 documented={"spacing": None, "shape": None, "region": None, "adjust": "spacing"})
+    tap.function(vc, "expanding_window", post=post_expanding, pre=pre_expanding, documented={})
 
 
 # ----------------------------------------------------------------------
